@@ -23,10 +23,16 @@ EXTENDS Integers, Sequences, FiniteSets, TLC
 CONSTANTS Methods,     \* subset of {"GET","HEAD","PUT","POST","DELETE"}
           MaxAtts,     \* values of MaxIdemponentCallAttempts; 0 = unset (DefaultMaxIdemponentCallAttempts = 5)
           Callbacks,   \* set of [kind: "none"|"retryif"|"retryiferr"|"upstream", retry: BOOLEAN, reset: BOOLEAN]
-          Faults,      \* subset of {"dialErr","writeErr","eofBeforeResponse","readTimeout","oversizedBody","ok"}
+          Faults,      \* subset of {"dialErr","writeErr","eofBeforeResponse","readTimeout","ok"} \cup Oversized
           MaxSteps     \* bound on attempts explored (> 5, so that the bound itself is checked, not assumed)
 
 DefaultMaxAttempts == 5
+
+\* A complete but unacceptable answer: the body is longer than MaxResponseBodySize, in each of the three
+\* framings (Content-Length, chunked, delimited by the close of the connection).  It is an answer, not a
+\* transport fault: one transmission, ErrBodyTooLarge, no retry -- whatever the framing and wherever the
+\* limit lies relative to the size of the buffer the body is read into (a replay dimension of the binding).
+Oversized == {"oversizedCL", "oversizedChunked", "oversizedIdentity"}
 
 VARIABLES cfg,       \* [method, stream, maxAtt, cb, hasTimeout]
           phase,     \* "top" | "call" | "decide" | "done"
@@ -57,7 +63,7 @@ FaultEffect(f, m) ==
     [] f = "writeErr"           -> [tx |-> 1, retry |-> TRUE,  err |-> "write"]
     [] f = "eofBeforeResponse"  -> [tx |-> 1, retry |-> TRUE,  err |-> "eof"]
     [] f = "readTimeout"        -> [tx |-> 1, retry |-> TRUE,  err |-> "readtimeout"]
-    [] f = "oversizedBody"      -> IF m = "HEAD" THEN [tx |-> 1, retry |-> FALSE, err |-> "nil"]
+    [] f \in Oversized          -> IF m = "HEAD" THEN [tx |-> 1, retry |-> FALSE, err |-> "nil"]
                                    ELSE [tx |-> 1, retry |-> FALSE, err |-> "toolarge"]  \* ErrBodyTooLarge: no retry
     [] f = "ok"                 -> [tx |-> 1, retry |-> FALSE, err |-> "nil"]
 
